@@ -115,7 +115,7 @@ class C09(Prop):
         # every dedicated family is visited at least twice per run, whatever the seed; the rest is drawn at random
         closure_variant = 0
         twins_split = 2
-        forced = [0.04, 0.11, 0.16, 0.16, 0.21, 0.245, 0.28, 0.28, 0.32, 0.35, 0.35, 0.35, 0.38, 0.41, 0.45, 0.48, 0.51, 0.53, 0.7, 0.7, 0.7] * 2
+        forced = [0.04, 0.11, 0.16, 0.16, 0.21, 0.245, 0.28, 0.28, 0.32, 0.35, 0.35, 0.35, 0.35, 0.38, 0.41, 0.45, 0.48, 0.51, 0.53, 0.7, 0.7, 0.7] * 2
         while True:
             r = forced.pop() if forced else rng.random()
             if r < 0.08:
@@ -181,9 +181,24 @@ class C09(Prop):
             if 0.34 <= r < 0.37:
                 # two functions made by ONE factory (identical, retrievable source text) that captured different values: different definitions
                 closure_variant += 1
-                if closure_variant % 3 == 1:
+                if closure_variant % 4 == 0:
+                    # LONG captured values that differ far from both ends (a prompt template, a lookup table, a deep structure): an
+                    # abbreviated description of the captured value is not the value
+                    kind_l = rng.choice(["str", "list", "deep"])
+                    if kind_l == "str":
+                        c1, c2 = ["p" * 150 + "English" + "q" * 150, None], ["p" * 150 + "Francais" + "q" * 150, None]
+                    elif kind_l == "list":
+                        base_l = list(range(80))
+                        c1, c2 = [{"l": base_l}, None], [{"l": base_l[:-1] + [999]}, None]
+                    else:
+                        def deep(v: Any, n: int = 14) -> Any:
+                            for _ in range(n):
+                                v = {"l": [v]}
+                            return v
+                        c1, c2 = [deep(4), None], [deep(5), None]
+                elif closure_variant % 4 == 1:
                     c1, c2 = rng.sample([[0, None], [1, None], [2, None], ["a", None], [{"t": [1]}, None], [{"plain": 1}, None]], 2)
-                elif closure_variant % 3 == 2:
+                elif closure_variant % 4 == 2:
                     # two captured values whose printed forms CONCATENATE to the same text
                     c1, c2 = rng.choice([([1, 23], [12, 3]), ([10, 1], [1, 1]), ([7, 70], [77, 0])])
                     if rng.random() < 0.5:
